@@ -914,6 +914,13 @@ func (t *Tr) selectInstr(x *ssa.Select) {
 
 func (t *Tr) panicInstr(x *ssa.Panic) {
 	reach := t.reach[t.curBlk]
+	// an explicit panic is a pseudo-call panic(value): a clause "call panic requires c" says under which condition
+	// (over the locals at that point) the function may give up; it takes the place of "unreachable"
+	nObl := len(t.obls)
+	t.pseudoCallNamed("panic", []ssa.Value{x.X}, x.Pos())
+	if len(t.obls) > nObl {
+		return
+	}
 	if t.ct != nil && len(t.ct.Panics) > 0 {
 		env := t.entryEnv(t.entrySt)
 		var ds []Term
